@@ -22,9 +22,9 @@
  * other task object whose successor is the head.  Everything else is outside every assigns clause. */
 #define TQ_TAIL_SHAPE(tq)                                                                  \
 	((tq)->tq_tasks.ll_offset == offsetof(nni_task, task_node) &&                          \
-	    ((__CPROVER_pointer_in_range_dfcc(&TQ_HEAD(tq), TQ_HEAD(tq).ln_prev, &TQ_HEAD(tq)) && \
+	    ((g_q_empty && __CPROVER_pointer_in_range_dfcc(&TQ_HEAD(tq), TQ_HEAD(tq).ln_prev, &TQ_HEAD(tq)) && \
 	         __CPROVER_pointer_in_range_dfcc(&TQ_HEAD(tq), TQ_HEAD(tq).ln_next, &TQ_HEAD(tq))) || \
-	        (__CPROVER_is_fresh(TQ_HEAD(tq).ln_prev, sizeof(nni_task)) &&                  \
+	        (!g_q_empty && __CPROVER_is_fresh(TQ_HEAD(tq).ln_prev, sizeof(nni_task)) &&                  \
 	            __CPROVER_pointer_in_range_dfcc(&TQ_HEAD(tq), TQ_HEAD(tq).ln_prev->ln_next, &TQ_HEAD(tq)))))
 
 #define TASK_PRE(t)                                                                        \
